@@ -40,13 +40,22 @@ import (
 // value code k (onoff: state k-1 of UNSPECIFIED/ON/OFF; light: level 24*(k-1) percent), Normal.Err the
 // error number (class*100+id).  Pull members carry both (initial value, error that ends the stream).
 type gcase struct {
-	Gated   bool   `json:"gated"` // always true (tells a replay file of this kind from the others)
-	Trait   string `json:"trait"` // onoff | light
-	RPC     string `json:"rpc"`   // Get | Update | Pull
-	Strat   string `json:"strategy"`
-	Behs    []beh  `json:"members"`
-	Order   []int  `json:"order"`
-	PCancel int    `json:"parent_cancel"`
+	Gated   bool     `json:"gated"` // always true (tells a replay file of this kind from the others)
+	Trait   string   `json:"trait"` // onoff | light
+	RPC     string   `json:"rpc"`   // Get | Update | Pull
+	Strat   string   `json:"strategy"`
+	Behs    []beh    `json:"members"`
+	Order   []int    `json:"order"`
+	PCancel int      `json:"parent_cancel"`
+	Names   []string `json:"names,omitempty"` // the member names the Group is built with (naming.go; distinct here); none: m0, m1, ...
+}
+
+// key: the full input (the driver's line has no names: the model's members are their indices).
+func (g gcase) key() string {
+	if g.Names == nil {
+		return g.line()
+	}
+	return g.line() + " names=" + quoteNames(g.Names)
 }
 
 func (g gcase) fn() string {
@@ -97,13 +106,8 @@ func onoffName(s traits.OnOff_State) string {
 	return "?" + strconv.Itoa(int(s))
 }
 
-func memberIndex(name string) int {
-	i, err := strconv.Atoi(strings.TrimPrefix(name, "m"))
-	if err != nil {
-		return -1
-	}
-	return i
-}
+// errNoSuchMember: what a call that belongs to no entry of the member list is answered with.
+var errNoSuchMember = fmt.Errorf("harness: the Group called a name that is not (or no longer) in its member list")
 
 // ---- scripted clients: every per-member call is the gated member function of the run
 
@@ -111,10 +115,16 @@ type gatedLight struct {
 	traits.LightApiClient
 	r       *run
 	members []group.Member
+	tab     *nameTable
 }
 
 func (c *gatedLight) unary(ctx context.Context, name string) (*traits.Brightness, error) {
-	m, err := c.members[memberIndex(name)](ctx)
+	i := c.tab.resolve(name)
+	if i < 0 {
+		c.r.noteStray(name)
+		return nil, errNoSuchMember
+	}
+	m, err := c.members[i](ctx)
 	if m == nil {
 		return nil, err
 	}
@@ -127,8 +137,12 @@ func (c *gatedLight) UpdateBrightness(ctx context.Context, in *traits.UpdateBrig
 	return c.unary(ctx, in.Name)
 }
 func (c *gatedLight) PullBrightness(ctx context.Context, in *traits.PullBrightnessRequest, _ ...grpc.CallOption) (grpc.ServerStreamingClient[traits.PullBrightnessResponse], error) {
-	i := memberIndex(in.Name)
-	return &gatedLightStream{ctx: ctx, c: c, i: i}, nil
+	i := c.tab.resolve(in.Name)
+	if i < 0 {
+		c.r.noteStray(in.Name)
+		return nil, errNoSuchMember
+	}
+	return &gatedLightStream{ctx: ctx, c: c, i: i, name: in.Name}, nil
 }
 
 type gatedLightStream struct {
@@ -136,6 +150,7 @@ type gatedLightStream struct {
 	ctx  context.Context
 	c    *gatedLight
 	i    int
+	name string
 	sent bool
 }
 
@@ -143,7 +158,7 @@ func (s *gatedLightStream) Recv() (*traits.PullBrightnessResponse, error) {
 	if !s.sent {
 		s.sent = true
 		v := lightLevel(s.c.r.c.group.Behs[s.i].Normal.Msg)
-		return &traits.PullBrightnessResponse{Changes: []*traits.PullBrightnessResponse_Change{{Name: memberName(s.i), Brightness: &traits.Brightness{LevelPercent: v}}}}, nil
+		return &traits.PullBrightnessResponse{Changes: []*traits.PullBrightnessResponse_Change{{Name: s.name, Brightness: &traits.Brightness{LevelPercent: v}}}}, nil
 	}
 	_, err := s.c.members[s.i](s.ctx)
 	if err == nil {
@@ -156,10 +171,16 @@ type gatedOnOff struct {
 	traits.OnOffApiClient
 	r       *run
 	members []group.Member
+	tab     *nameTable
 }
 
 func (c *gatedOnOff) unary(ctx context.Context, name string) (*traits.OnOff, error) {
-	m, err := c.members[memberIndex(name)](ctx)
+	i := c.tab.resolve(name)
+	if i < 0 {
+		c.r.noteStray(name)
+		return nil, errNoSuchMember
+	}
+	m, err := c.members[i](ctx)
 	if m == nil {
 		return nil, err
 	}
@@ -172,7 +193,12 @@ func (c *gatedOnOff) UpdateOnOff(ctx context.Context, in *traits.UpdateOnOffRequ
 	return c.unary(ctx, in.Name)
 }
 func (c *gatedOnOff) PullOnOff(ctx context.Context, in *traits.PullOnOffRequest, _ ...grpc.CallOption) (grpc.ServerStreamingClient[traits.PullOnOffResponse], error) {
-	return &gatedOnOffStream{ctx: ctx, c: c, i: memberIndex(in.Name)}, nil
+	i := c.tab.resolve(in.Name)
+	if i < 0 {
+		c.r.noteStray(in.Name)
+		return nil, errNoSuchMember
+	}
+	return &gatedOnOffStream{ctx: ctx, c: c, i: i, name: in.Name}, nil
 }
 
 type gatedOnOffStream struct {
@@ -180,6 +206,7 @@ type gatedOnOffStream struct {
 	ctx  context.Context
 	c    *gatedOnOff
 	i    int
+	name string
 	sent bool
 }
 
@@ -187,7 +214,7 @@ func (s *gatedOnOffStream) Recv() (*traits.PullOnOffResponse, error) {
 	if !s.sent {
 		s.sent = true
 		st := traits.OnOff_State(s.c.r.c.group.Behs[s.i].Normal.Msg - 1)
-		return &traits.PullOnOffResponse{Changes: []*traits.PullOnOffResponse_Change{{Name: memberName(s.i), OnOff: &traits.OnOff{State: st}}}}, nil
+		return &traits.PullOnOffResponse{Changes: []*traits.PullOnOffResponse_Change{{Name: s.name, OnOff: &traits.OnOff{State: st}}}}, nil
 	}
 	_, err := s.c.members[s.i](s.ctx)
 	if err == nil {
@@ -243,10 +270,7 @@ func (s *gOnOffServer) Send(r *traits.PullOnOffResponse) error {
 
 // prepare installs the Group call into a run (see runCase).
 func (g *gcase) prepare(r *run) {
-	names := make([]string, len(g.Behs))
-	for i := range names {
-		names[i] = memberName(i)
-	}
+	names := namesOr(g.Names, len(g.Behs))
 	strat := strategyConst[g.Strat]
 	// the field that does NOT govern this RPC gets a strategy with a different contract
 	other := group.ExecutionStrategyAll
@@ -260,7 +284,7 @@ func (g *gcase) prepare(r *run) {
 	if g.Trait == "light" {
 		r.mkMsg = func(k int) proto.Message { return &traits.Brightness{LevelPercent: lightLevel(k)} }
 		r.call = func(r *run, ctx context.Context, members []group.Member) {
-			grp := lightpb.NewGroup(&gatedLight{r: r, members: members}, names...)
+			grp := lightpb.NewGroup(&gatedLight{r: r, members: members, tab: newNameTable(names)}, names...)
 			grp.ReadExecution, grp.WriteExecution = rd, wr
 			var v *traits.Brightness
 			switch g.RPC {
@@ -282,7 +306,7 @@ func (g *gcase) prepare(r *run) {
 	}
 	r.mkMsg = func(k int) proto.Message { return &traits.OnOff{State: traits.OnOff_State(k - 1)} }
 	r.call = func(r *run, ctx context.Context, members []group.Member) {
-		grp := onoffpb.NewGroup(&gatedOnOff{r: r, members: members}, names...)
+		grp := onoffpb.NewGroup(&gatedOnOff{r: r, members: members, tab: newNameTable(names)}, names...)
 		grp.ReadExecution, grp.WriteExecution = rd, wr
 		var v *traits.OnOff
 		switch g.RPC {
@@ -392,8 +416,12 @@ func (g gcase) wantValue(o obs) (string, bool) {
 
 func gadapterMonitor(mon *lib.Monitor, g gcase, o obs) {
 	t := g.tcase()
-	mon.Eval(g.line(), len(g.Behs) > 0, nil)
+	mon.Eval(g.key(), len(g.Behs) > 0, nil)
 	sig := "C17/" + g.fn() + "/" + fnName(g.Strat) + "/"
+	if len(o.Strays) > 0 {
+		mon.Violate(sig+"member-names", "the Group called a name that belongs to no entry of its member list (every entry - whatever its name - is one member, called under its own name at most once per RPC)",
+			g, "only calls to "+quoteNames(namesOr(g.Names, len(g.Behs))), "stray calls: "+strings.Join(o.Strays, ","))
+	}
 	for _, f := range contract(t, o) {
 		mon.Violate(sig+f.class, f.what, g, f.expected, f.observed)
 	}
@@ -437,7 +465,7 @@ func gbehFail(class, id int, aware bool) beh {
 // cancellation-aware (it reports its context's error when it finds it cancelled, as a device call does);
 // plus random cases with up to 4 members, mixed awareness, error classes and values.
 func gadapterCases(f lib.Flags, rng *rand.Rand) []gcase {
-	var out []gcase
+	var out, named []gcase
 	top := 3
 	for n := 0; n <= top; n++ {
 		for _, tr := range []string{"light", "onoff"} {
@@ -473,6 +501,13 @@ func gadapterCases(f lib.Flags, rng *rand.Rand) []gcase {
 									continue
 								}
 								out = append(out, gcase{Gated: true, Trait: tr, RPC: rpc, Strat: st, Behs: behs, Order: p, PCancel: pc})
+								if pc == -1 && n >= 1 && (n <= 2 || f.Thorough()) {
+									// the same case under every systematic list of distinct odd member names (naming.go): each
+									// entry blank in turn, names that look like another member's
+									for _, names := range nameSchemes(n, false) {
+										named = append(named, gcase{Gated: true, Trait: tr, RPC: rpc, Strat: st, Behs: behs, Order: p, PCancel: pc, Names: names})
+									}
+								}
 							}
 						}
 					}
@@ -480,6 +515,7 @@ func gadapterCases(f lib.Flags, rng *rand.Rand) []gcase {
 			}
 		}
 	}
+	out = append(out, named...)
 	for k := 0; k < f.N(600, 20000); k++ {
 		n := 1 + rng.Intn(4)
 		g := gcase{Gated: true, Trait: []string{"light", "onoff"}[rng.Intn(2)], RPC: []string{"Get", "Update", "Pull"}[rng.Intn(3)],
@@ -502,6 +538,7 @@ func gadapterCases(f lib.Flags, rng *rand.Rand) []gcase {
 				g.Behs[i] = gbehOK(1+rng.Intn(vals), aware)
 			}
 		}
+		g.Names = randomNames(n, false, rng)
 		out = append(out, g)
 	}
 	// large groups (last, see largeCases in main.go): 10 and 17 members under the single-result strategies (one
@@ -544,13 +581,13 @@ func runGatedAdapters(f lib.Flags, res *lib.Result, drv *lib.Driver, rng *rand.R
 	tie := res.Tie("group-adapters-gated", "K4",
 		"lightpb.Group and onoffpb.Group x {Get, Update, Pull} x the six strategies over GATED members (a scripted traits client whose per-member call waits for its gate, "+
 			"then answers or - being cancellation-aware - reports its context's error): EXHAUSTIVE for 0..3 members (Pull: 0..2, thorough 0..3) x every ok/fail vector (Pull: streams end with an error) "+
-			"x every completion order x caller cancellation never / after each number of completions; plus random cases with 1..4 members, mixed awareness, every error class, random values; plus groups of 10 and 17 members under One/Fast/Race (winner first, winner last, a failing first half). "+
+			"x every completion order x caller cancellation never / after each number of completions; MEMBER NAMES are an input of the code the model does not have (its members are their indices): every exhaustive case without caller cancellation of 1..2 (thorough 3) members is repeated under every systematic list of distinct odd names (each entry blank in turn, names that look like another member's), half of the random cases draw distinct odd names (blank, non-printable, 300 characters); the scripted client assigns a call to the entry of the list it names; plus random cases with 1..4 members, mixed awareness, every error class, random values; plus groups of 10 and 17 members under One/Fast/Race (winner first, winner last, a failing first half). "+
 			"model = driver op `group`: the thread-level model of Execute under the same serial schedule + the Lean model of the adapter's reducer; compared: value returned (Pull: last value forwarded), "+
 			"which error, return point, the members' context state at every observation point (x = members of one call run under different contexts), what each member saw, which were started, goroutines left. "+
 			"non-trivial = n >= 1; distinct by full input")
 	mon := res.Monitor("group-adapters-gated-contract",
 		"the same executions judged by the strategy contracts of oracle.go (error by failure count, first error observed, return point, members' context cancelled exactly when the outcome is decided, "+
-			"One in index order, no panic, no goroutine left) and by the reduction stated independently: onoff = ON if any answering member is ON (else OFF if any is OFF), light = arithmetic mean of the answering members")
+			"One in index order, no panic, no goroutine left, no call under a name that is no entry of the member list) and by the reduction stated independently: onoff = ON if any answering member is ON (else OFF if any is OFF), light = arithmetic mean of the answering members")
 	cases := gadapterCases(f, rng)
 	var answers []string
 	if drv != nil {
@@ -609,7 +646,7 @@ func runGatedAdapters(f lib.Flags, res *lib.Result, drv *lib.Driver, rng *rand.R
 			if msg != "" {
 				o := obs{Panic: msg, Ret: -1}
 				if answers != nil {
-					tie.Record(g.line(), len(g.Behs) >= 1, g, answers[i], o.canon(t))
+					tie.Record(g.key(), len(g.Behs) >= 1, g, answers[i], o.canon(t))
 				}
 				gadapterMonitor(mon, g, o)
 				continue
@@ -625,7 +662,7 @@ func runGatedAdapters(f lib.Flags, res *lib.Result, drv *lib.Driver, rng *rand.R
 			for k := 0; k < retries; k++ {
 				if o2 := runCase(t); !suspicious(o2) {
 					mon.Count("retried-and-vanished")
-					mon.Count("retried-and-vanished:" + g.line() + " first=" + o.canon(t))
+					mon.Count("retried-and-vanished:" + g.key() + " first=" + o.canon(t))
 					o = o2
 					break
 				}
@@ -638,7 +675,7 @@ func runGatedAdapters(f lib.Flags, res *lib.Result, drv *lib.Driver, rng *rand.R
 			hangs[g.fn()]++
 		}
 		if answers != nil {
-			tie.Record(g.line(), len(g.Behs) >= 1, g, answers[i], o.canon(t))
+			tie.Record(g.key(), len(g.Behs) >= 1, g, answers[i], o.canon(t))
 		}
 		kind := "random"
 		if i < exhaustiveUpTo {
